@@ -117,9 +117,71 @@ def corpus(rng, tier):
     return ops
 
 
+def serde_corpus(rng, tier):
+    """serde-bridge operations that exist without alloc (no model here: the six builds are compared with each other)."""
+    q = tier == "quick"
+    ops = []
+    T = {"u8": [b"\x05", b"\x18\xff", b"\x19\x01\x00", b"\x20", b"\xf6"], "u64": [b"\x1b" + b"\xff" * 8, b"\x00", b"\x3b" + b"\x00" * 8],
+         "i8": [b"\x38\x7f", b"\x38\x80", b"\x18\x80"], "i64": [b"\x3b\x7f" + b"\xff" * 7, b"\x3b\x80" + b"\x00" * 7, b"\x1b\x80" + b"\x00" * 7],
+         "bool": [b"\xf4", b"\xf5", b"\xf6", b"\x01"], "char": [b"\x18\x78", b"\x19\xd8\x00", b"\x1a\x00\x11\x00\x00", b"\x61\x78"],
+         "f32": [b"\xfa\x3f\x80\x00\x00", b"\xf9\x3c\x00", b"\xfb" + b"\x00" * 8], "f64": [b"\xfb\x3f\xf0" + b"\x00" * 6, b"\xfa\x7f\xc0\x00\x01", b"\xf9\x7e\x01"],
+         "unit": [b"\x80", b"\x9f\xff", b"\x81\x00", b"\xf6"], "opt_u8": [b"\xf6", b"\x07", b"\xf7"],
+         "str": [b"\x61a", b"\x7f\x61a\xff", b"\x62\xc3\x28", b"\x41a"], "bytes": [b"\x42\x01\x02", b"\x5f\x41\x01\xff", b"\x61a"],
+         "tup2": [b"\x82\x01\x02", b"\x9f\x01\x02\xff", b"\x9f\x01\x02\x03\xff", b"\x9f\x01\xff", b"\x83\x01\x02\x03", b"\x81\x01", b"\x98\x02\x01\x02"],
+         "tup3n": [b"\x83\x01\x82\x20\xf5\x19\x01\x00", b"\x83\x01\x9f\x20\xf5\xff\x07", b"\x9f\x01\x82\x20\xf5\x07\xff"],
+         "arr2": [b"\x82\x01\x02", b"\x9f\x01\x02\xff", b"\x82\x01", b"\x83\x01\x02\x03"],
+         "arr2tup": [b"\x82\x82\x01\x02\x82\x03\x04", b"\x82\x9f\x01\x02\xff\x82\x03\x04", b"\x9f\x9f\x01\x02\xff\x9f\x03\x04\xff\xff"],
+         "opt_tup": [b"\xf6", b"\x82\x01\x02", b"\x9f\x01\x02\xff"]}
+    for t, xs in T.items():
+        for x in xs:
+            ops.append(f"sde {t} {x.hex()}")
+            for c in range(len(x)):
+                ops.append(f"sde {t} {gen.hexb(x[:c])}")
+            ext = x + bytes([7])
+            ops.append(f"sde {t} {ext.hex()}")
+        for _ in range(150 if q else 5000):
+            m = bytearray(rng.choice(xs))
+            m[rng.randrange(len(m))] = rng.getrandbits(8)
+            ops.append(f"sde {t} {bytes(m).hex()}")
+    for v in gen.boundaries(64):
+        ops.append(f"sser u64 {v}")
+        if v < 2**63: ops.append(f"sser i64 {-1 - v}")
+    for x in range(256):
+        ops.append(f"sser u8 {x}"); ops.append(f"sser i8 {x - 128}")
+    ops += ["sser bool 0", "sser bool 1", "sser unit -", "sser opt_u8 N", "sser opt_u8 200", "sser char 120", "sser char 1114111",
+            "sser str 68656c6c6f", "sser str -", "sser tup2 258", "sser arr2 65535", "sser f32 3f800000", "sser f32 7fc00001"]
+    return ops
+
+
 def streams(rng, tier):
     ops = corpus(rng, tier)
+    sops = serde_corpus(rng, tier)
+    ref = {}
+    # the std+half build is the reference for the serde-bridge operations; every other build must answer identically
+    def judge_ref(op, impl, model, spec):
+        ref[op] = impl
+        return "violation" if impl in ("panic",) else "ok"
+    def judge_same(op, impl, model, spec):
+        want = ref.get(op)
+        if want is None or impl == want:
+            return "ok"
+        # documented difference: without half, a half-precision item is a type error
+        if "half" not in CUR[0] and " f9" in " " + op.split(" ")[2][:2] and impl.startswith("err type"):
+            return "ok"
+        return "violation"
+    CUR = [""]
     out = []
+    order = [c for c in CONFIGS if c[0] == "std_half"] + [c for c in CONFIGS if c[0] != "std_half"]
+    for name, feats in order:
+        def mk(name=name, feats=feats):
+            def j(op, impl, model, spec):
+                CUR[0] = feats
+                return (judge_ref if name == "std_half" else judge_same)(op, impl, model, spec)
+            return j
+        st = Stream("serde-" + name, cfg_bin(name), sops, model_ops=["nop"] * len(sops), judge=mk(),
+                    rule=f"serde-bridge Deserializer/Serializer on types available without alloc, configuration {name}: identical to the std+half build (documented: f9 is a type error without half)")
+        st.shrinkable = False
+        out.append(st)
     for name, feats in CONFIGS:
         alloc = "alloc" in feats or "std" in feats
         half = "half" in feats
@@ -133,4 +195,9 @@ def streams(rng, tier):
 
 def replay_streams(rp):
     op = rp["original_op"]
+    if op.startswith("sde") or op.startswith("sser"):
+        a = Stream("replay-ref", cfg_bin("std_half"), [op], model_ops=["nop"], judge=lambda *x: "ok")
+        def j(o, impl, model, spec):
+            return "ok" if impl == a.impl_results[0] else "violation"
+        return [a, Stream("replay", rp["binary"], [op], model_ops=["nop"], judge=j)]
     return [Stream("replay", rp["binary"], [op], model_ops=[rp["model_op"]])]
